@@ -263,7 +263,7 @@ class Check:
                 fh.write(json.dumps(e, separators=(',', ':')) + '\n')
         r = self.tlc(family, module, cfg, workers=workers, timeout=timeout, deque=deque, expect_violation=True)
         info = {'error': r['error'], 'distinct': r['distinct'], 'depth': r['depth']}
-        m = re.search(r'TRACE-PREFIX (\d+)', r['out'])
+        m = re.search(r'"TRACE-PREFIX", (\d+)', r['out'])
         if m:
             info['matched_prefix'] = int(m.group(1))
         if not r['ok'] and r['error'] and 'Postcondition' not in r['error'] and 'violated' not in r['error']:
